@@ -105,4 +105,20 @@ def layoutBytes (m : PMol) : Option (List Nat) := do
   pure (fieldsBytes ([(8, 2), (12, m.atoms.length), (12, stereoBondCount m.atoms)] ++ af ++ connFields m.atoms) ++
         fieldsBytes (orderFields m.atoms) ++ fieldsBytes cf)
 
+
+/-! ### version 0 (earlier packs): only the bond-order block differs
+
+The only description of the old block is the layout comment kept in the decoder: `0 3 3 1 | 2 3 3` — five 3-bit codes
+right-aligned in two bytes (one leading zero bit); the last group is filled with zero codes. -/
+
+def v0Group (c0 c1 c2 c3 c4 : Nat) : List Nat := fieldsBytes [(1, 0), (3, c0), (3, c1), (3, c2), (3, c3), (3, c4)]
+
+def v0OrderBytes : List Nat → List Nat
+  | [] => []
+  | [c0] => v0Group c0 0 0 0 0
+  | [c0, c1] => v0Group c0 c1 0 0 0
+  | [c0, c1, c2] => v0Group c0 c1 c2 0 0
+  | [c0, c1, c2, c3] => v0Group c0 c1 c2 c3 0
+  | c0 :: c1 :: c2 :: c3 :: c4 :: rest => v0Group c0 c1 c2 c3 c4 ++ v0OrderBytes rest
+
 end ChythonModel.Spec.PackLayout
